@@ -319,7 +319,7 @@ def run(ctx):
     ctx.rule = RULE
     ctx.assumptions = ["the constants file is used as data by the reference; the published vectors anchor both implementations for x5_254_5 and x5_255_5 (no published vector for the curve25519 set)",
                        "recorder posing as each zkinterface backend; stand-ins for selection paths"]
-    n = 12 if ctx.tier == "quick" else 400
+    n = 40 if ctx.tier == "quick" else 600
     reps = 5 if ctx.tier == "quick" else 5
     jobs = [dict(config=c, seed=ctx.seed * 1000 + 13 * i + k, n_examples=n) for i, c in enumerate(CONFIG_MODULE) for k in range(reps)]
     total = core.run_shards("harness.checks.c20", "hash_shard", jobs)
